@@ -63,7 +63,33 @@ func runC12(c *core.Ctx) {
 		d.build(c, r.Range(1, 12))
 		prior = "small"
 	}
+	// Chained mode (one case in four): the prior state itself comes from a
+	// successful load that is NOT observed afterwards; its reference is a
+	// container built from the first document's denotation through the ordinary
+	// API. A loader that defers work to the first access (lazy re-ordering,
+	// pending flags) is thereby hit by the second load while that work is
+	// still pending.
+	var ref *Dyn
+	if r.Chance(1, 4) {
+		doc1 := d.GenDoc(r, r.Range(2, 30), false, false)
+		// (a bidirectional map whose input repeats a value has several valid
+		// outcomes; such a first document cannot serve as an unobserved reference)
+		if elems1, ok1 := d.Denote(doc1); ok1 && !(d.GetKey != nil && hasDupValues(elems1)) {
+			c.Begin(kind, "FromJSON", "first-of-two(unobserved)", string(doc1))
+			if err1 := d.JSON.FromJSON(doc1); err1 == nil {
+				ref = d.Fresh()
+				ref.PutAny(elems1)
+				prior = "loaded-and-not-observed"
+				c.Count("attempt:chained-loads", 1)
+			} else {
+				c.Fail("replace", "well-formed-rejected", "%s.FromJSON(%s) returned %v for a well-formed document of its own element type", kind, doc1, err1)
+			}
+		}
+	}
 	priorSize := d.C.Size()
+	if ref != nil {
+		priorSize = ref.C.Size() // (Size() of the reference: the container under test stays unobserved)
+	}
 	// input
 	dupK, dupV := r.Chance(1, 5), r.Chance(1, 4) && d.GetKey != nil
 	n := []int{0, 1, 2, r.Range(3, 9), r.Range(3, 9), r.Range(10, 40)}[r.Intn(6)]
@@ -96,10 +122,15 @@ func runC12(c *core.Ctx) {
 		c.Count("attempt:bidi-duplicate-values", 1)
 	}
 
-	before := d.Observe(true)
+	var before Obs
 	var bw []any
-	if d.Walk != nil {
-		bw = d.Walk()
+	if ref == nil {
+		before = d.Observe(true)
+		if d.Walk != nil {
+			bw = d.Walk()
+		}
+	} else {
+		before = ref.Observe(true)
 	}
 	var err error
 	via := []string{"FromJSON", "UnmarshalJSON", "json.Unmarshal"}[r.Intn(3)]
@@ -115,6 +146,16 @@ func runC12(c *core.Ctx) {
 		err = d.JSON.UnmarshalJSON(data)
 	default:
 		err = json.Unmarshal(data, d.Raw)
+	}
+	if err != nil && ref != nil {
+		// the container must be exactly what the first, successful load made it
+		if diff := equivalent(d, ref, true); diff != "" {
+			c.Fail("atomicity", "changed-on-error-after-unobserved-load", "%s(%s %s): a successful FromJSON followed, without any access in between, by %s(%s) returning error %q leaves a container that differs from what the first input denotes: %s", kind, d.Elem, d.Config, via, shown, err.Error(), diff)
+		}
+		c.Count("outcome:error", 1)
+		lockstep(c, d, ref, r.Range(5, 20), "after a failed load that followed an unobserved successful one")
+		c.Nontrivial()
+		return
 	}
 	if err != nil {
 		after := d.Observe(true)
